@@ -11,7 +11,7 @@ from __future__ import annotations
 import ast
 from fractions import Fraction
 
-from .model import ClassInfo, FuncInfo, call_name, is_self_attr, norm
+from .model import ClassInfo, FuncInfo, call_name, is_self_attr, norm, strip_copy
 from .report import AnalysisError
 
 TOP = "TOP"
@@ -117,6 +117,7 @@ class TypeEval:
         raise AnalysisError(f"{f.qualname}: statement outside the typing grammar: {norm(st)[:60]}")
 
     def ev(self, f, e, env):
+        e = strip_copy(e)
         L = self.L
         if isinstance(e, ast.Constant):
             return L.zero
